@@ -23,10 +23,10 @@ theorem encapsulate_fold (boxOf : E → Box) (es : List E) (b0 : Box) :
     have enc : BoxSub (boxOf x) (b0.EncapsulateBounds (boxOf x)) ∧
         ∀ v, b0.Contains v = true → (b0.EncapsulateBounds (boxOf x)).Contains v = true := by
       refine ⟨⟨?_, ?_⟩, ?_⟩
-      · exact C17.aabb_encapsulatePoint_mono _ _ _ (C17.aabb_encapsulatePoint_contains _ _)
-      · exact C17.aabb_encapsulatePoint_contains _ _
+      · exact aabb_encapsulatePoint_mono _ _ _ (aabb_encapsulatePoint_contains _ _)
+      · exact aabb_encapsulatePoint_contains _ _
       · intro v hv
-        exact C17.aabb_encapsulatePoint_mono _ _ _ (C17.aabb_encapsulatePoint_mono _ _ _ hv)
+        exact aabb_encapsulatePoint_mono _ _ _ (aabb_encapsulatePoint_mono _ _ _ hv)
     refine ⟨fun v hv => ih1 v (enc.2 v hv), ?_⟩
     intro e he
     rcases List.mem_cons.mp he with rfl | he
